@@ -135,6 +135,22 @@ def h_chain(ctx, fname, nmax, params=None, array=False, inplace=False, order='as
             ctx.eq(vals[k + 1], fd, 'order%d==d/dx order%d' % (k + 1, k))
 
 
+def h_order_types(ctx, fname, nmax, params=None):
+    """the order n given as a NumPy integer of any type (uint8, uint64, int32) equals the python int"""
+    algopy = symx.load_algopy()
+    params = params or {}
+    x = _x(ctx, DOMAINS[fname])
+    for n in range(nmax + 1):
+        ref = call(algopy, fname, x, n, params)
+        for t in (np.uint8, np.uint64, np.int32, np.int64):
+            try:
+                got = call(algopy, fname, x, t(n), params)
+            except Exception as e:
+                ctx.fact(False, '%s(x, n=%s(%d)) raised %s: %s' % (fname, t.__name__, n, type(e).__name__, str(e)[:60]))
+                continue
+            ctx.eq(got, ref, '%s order %s(%d) == order %d' % (fname, t.__name__, n, n))
+
+
 def h_piecewise(ctx, fname, nmax):
     """piecewise constant / linear functions: derivative orders >= 1 on each path"""
     algopy = symx.load_algopy()
@@ -196,6 +212,9 @@ def units(tier, seed):
             nmax=4 if tier == 'quick' else 6, order='mixed')
     add('polygamma(m=1)/orders requested in mixed sequence/n<=4', 'h_chain', fname='polygamma', nmax=4, params={'m': 1}, order='mixed')
     add('hyperu(3/2,1/2)/orders requested in mixed sequence/n<=4', 'h_chain', fname='hyperu', nmax=4, params={'a': '3/2', 'b': '1/2'}, order='mixed')
+    for fname in ('erf', 'erfi', 'log', 'reciprocal', 'arctan', 'arcsinh', 'arctanh', 'sin', 'sqrt', 'exp2'):
+        add('%s/order given as a NumPy integer/n<=3' % fname, 'h_order_types', fname=fname, nmax=3)
+    add('hyperu(3/2,1/2)/order given as a NumPy integer/n<=2', 'h_order_types', fname='hyperu', nmax=2, params={'a': '3/2', 'b': '1/2'})
     for m in ((0, 1, 2) if tier == 'quick' else (0, 1, 2, 3, 5)):
         add('polygamma(m=%d)/n<=%d' % (m, nmax), 'h_chain', fname='polygamma', nmax=nmax, params={'m': m})
     for a, b in ([('3/2', '1/2'), ('1', '3'), ('-1/2', '3/2')] if tier == 'quick' else
